@@ -20,6 +20,7 @@ import PygyroVerif.Lemmas.TransposeCore
 import PygyroVerif.Lemmas.Route
 import PygyroVerif.Lemmas.Buffers
 import PygyroVerif.Lemmas.RouteValid
+import PygyroVerif.Lemmas.CopyBox
 
 namespace PygyroVerif.C01
 open PygyroVerif PygyroVerif.Handler PygyroVerif.Route PygyroVerif.Addr
@@ -45,6 +46,27 @@ theorem block_concatenation (A : Nat) (rest : List Nat) (hA : A ∉ rest) (u sh 
     q * ((A :: rest).map sh).prod + ravelD (A :: rest) u sh
       = ravelD (A :: rest) (Function.update u A (q * m + u A)) (Function.update sh A (p * m)) :=
   ravelD_block A rest hA u sh q m p hm
+
+/-! ### 1b. numpy assignment between views -/
+
+/-- **meaning of `dstView[...] = srcView`** as executed by the model (`assignView`/`copyBox`): for views of equal shape
+    whose destination cells are in bounds and pairwise distinct, every destination cell receives its source cell and
+    every other cell of the destination buffer is unchanged.  This is the lemma that turns each numpy statement of
+    `_extract_from_source` / `_rearrange_from_buffer` into the pointwise hypotheses `h1`, `h3` of `direct_step_correct`. -/
+theorem assign_pointwise {α : Type} [Inhabited α] (dst src : Array α) (dv sv : View)
+    (hsh : dv.shape = sv.shape) (hd : dv.shape.length = dv.strides.length) (hs : sv.shape.length = sv.strides.length)
+    (hb : ∀ i, CopyBox.InBox i dv.shape → dv.off + CopyBox.dot i dv.strides < dst.size)
+    (hinj : ∀ i i', CopyBox.InBox i dv.shape → CopyBox.InBox i' dv.shape →
+      CopyBox.dot i dv.strides = CopyBox.dot i' dv.strides → i = i') :
+    ∃ out, assignView dst dv src sv = some out ∧ out.size = dst.size ∧
+      (∀ idx, CopyBox.InBox idx dv.shape →
+        out[dv.off + CopyBox.dot idx dv.strides]? = some (src.getD (sv.off + CopyBox.dot idx sv.strides) default)) ∧
+      (∀ j, ¬ CopyBox.Reach dv.shape dv.strides dv.off j → out[j]? = dst[j]?) := by
+  refine ⟨_, CopyBox.assignView_same_shape dst src dv sv hsh hs, CopyBox.copyBox_size _ _ _ _ _ _ _, ?_, ?_⟩
+  · intro idx hidx
+    exact CopyBox.copyBox_get dv.shape dv.strides sv.strides dv.off sv.off dst src idx hd (by rw [hsh]; exact hs) hb hinj hidx
+  · intro j hj
+    exact CopyBox.copyBox_frame dv.shape dv.strides sv.strides dv.off sv.off dst src j hd (by rw [hsh]; exact hs) hj
 
 /-! ### 2. one direct change of layout -/
 
